@@ -49,13 +49,13 @@ type iterRec struct {
 }
 
 type poolFacts struct {
-	c                               *Ctx
-	rpT                             *types.Named
-	resF, capF, availF, inUseF      *types.Var
-	memo                            map[*ssa.Function][]outcome
-	inProgress                      map[*ssa.Function]bool
-	undecided                       []string
-	utilPkg                         *ssa.Package
+	c                          *Ctx
+	rpT                        *types.Named
+	resF, capF, availF, inUseF *types.Var
+	memo                       map[*ssa.Function][]outcome
+	inProgress                 map[*ssa.Function]bool
+	undecided                  []string
+	utilPkg                    *ssa.Package
 }
 
 func (c *Ctx) poolFacts() *poolFacts {
@@ -89,16 +89,16 @@ func (pf *poolFacts) isResChan(v ssa.Value) bool { return loadedField(v) == pf.r
 
 // path state
 type pstate struct {
-	b       *ssa.BasicBlock
-	prev    *ssa.BasicBlock
-	facts   map[ssa.Value]bool
-	phi     map[ssa.Value]ssa.Value // phi -> incoming value on this path
-	e       eff
-	path    []*ssa.BasicBlock
-	entryE  map[*ssa.BasicBlock]eff // effects at (last) entry of each block on the path
-	taken   map[ssa.Value]bool      // receive instruction (Select / UnOp) whose token was taken on this path and not cancelled
-	nilF    map[ssa.Value]bool      // error-typed call results known nil (true) / non-nil (false) from callee outcomes
-	iters   []iterRec
+	b      *ssa.BasicBlock
+	prev   *ssa.BasicBlock
+	facts  map[ssa.Value]bool
+	phi    map[ssa.Value]ssa.Value // phi -> incoming value on this path
+	e      eff
+	path   []*ssa.BasicBlock
+	entryE map[*ssa.BasicBlock]eff // effects at (last) entry of each block on the path
+	taken  map[ssa.Value]bool      // receive instruction (Select / UnOp) whose token was taken on this path and not cancelled
+	nilF   map[ssa.Value]bool      // error-typed call results known nil (true) / non-nil (false) from callee outcomes
+	iters  []iterRec
 }
 
 func (s *pstate) clone() *pstate {
@@ -643,9 +643,9 @@ func ruleC24conserve(c *Ctx, r *Report) {
 		name := c.FuncName(fn)
 		outs := pf.summarize(fn, 0)
 		type agg struct {
-			n    int
-			bad  *outcome
-			why  string
+			n   int
+			bad *outcome
+			why string
 		}
 		groups := map[string]*agg{}
 		note := func(key string, o *outcome, why string) {
